@@ -95,6 +95,7 @@ func main() {
 		Property: "C12",
 		Level:    "exploration",
 		Rule: "stream staged: random program = initial DB contents + root diffdb store (empty or 1-2 byte prefix, over db.DB or db.Reader) + 2-3 WithPrefix views (nested, sibling, empty prefix) + 20-200 (thorough: up to 400) ops set/del/get/has/range/iterate(fwd,rev,limit -1/0/1/k)/snapshot/restore/delete-snapshot/newview over keys of length 0-4 from {a,b,c,00,ff}, then Commit into a batch (+batchdb) + Write, RevertDiff through Encode/Decode and directly; every read is compared with kvmodel. " +
+			"stream undo: directed programs 'delete (or write) database keys, snapshot, write them again (delete them), restore, scans with limit 1-4 from both ends', 1-3 rounds. " +
 			"stream db: random contents + 10-120 ops Get/Exist/Iterate/IterateKey/IterateRange on db.DB and db.Reader, Set/Del, Batch/batchdb+Write. " +
 			"stream witness: fixed minimal programs for the DESIGN section 6 candidates 12 and 13. " +
 			"A case is non-trivial if it reached at least one hard region (limit over staged deletes, reverse range with a key extending end / end all 0xff, iterate through a prefixed view that sees a staged write, restore that changes state with other views alive, commit with adds+updates+deletes, ...); distinct = distinct sets of regions x size buckets.",
@@ -149,6 +150,16 @@ func main() {
 			k.Count("cases_staged", 1)
 			k.Eval(st.counts["op_get"] + st.counts["op_has"] + st.counts["op_range"] + st.counts["op_iterate"] + st.counts["restore_other_view_probed"] + 3)
 			flush(k, st, sizeBucket(len(p.Ops), len(p.Views)))
+			k.Sample(map[string]any{"ops": len(p.Ops), "views": len(p.Views) + 1, "initial_keys": len(p.Init), "root_prefix": p.RootPrefix, "first_ops": p.Ops[:6], "findings": len(fs)})
+			emitStaged(k, p, fs)
+		})
+		c.Cases("undo", c.N(12000, 240000), func(k *mon.Case) {
+			p := genUndoProgram(k.R)
+			st := newStats()
+			fs := run(p, st)
+			k.Count("cases_undo", 1)
+			k.Eval(st.counts["op_range"] + st.counts["op_iterate"] + st.counts["restore_other_view_probed"] + 3)
+			flush(k, st, "undo:"+sizeBucket(len(p.Ops), len(p.Views)))
 			k.Sample(map[string]any{"ops": len(p.Ops), "views": len(p.Views) + 1, "initial_keys": len(p.Init), "root_prefix": p.RootPrefix, "first_ops": p.Ops[:6], "findings": len(fs)})
 			emitStaged(k, p, fs)
 		})
